@@ -70,6 +70,9 @@ func (g *gen) gtfsTime() string {
 	if g.coin(0.1) {
 		h = 24 + g.r.Intn(76)
 	}
+	if g.coin(0.08) { // boundaries: midnight is a value, not "absent"
+		return g.pick([]string{"00:00:00", "0:00:00", "24:00:00", "00:00:01", "99:59:59"})
+	}
 	if g.coin(0.3) {
 		return fmt.Sprintf("%d:%02d:%02d", h, m, s)
 	}
@@ -235,6 +238,9 @@ func (g *gen) wellFormed(size int) *sfeed {
 				"continuous_pickup": g.pick([]string{"0", "1", "2", "3"}), "continuous_drop_off": g.pick([]string{"0", "1", "2", "3"}),
 				"shape_dist_traveled": g.pick([]string{"", "3.25"}), "timepoint": g.pick([]string{"0", "1"})})
 		}
+	}
+	if g.coin(0.5) { // GTFS does not require a trip's rows to be contiguous or in sequence order
+		g.r.Shuffle(len(stt.rows), func(i, j int) { stt.rows[i], stt.rows[j] = stt.rows[j], stt.rows[i] })
 	}
 	return f
 }
